@@ -169,3 +169,34 @@ def delete_table_ext_sql(catalog: str, schema: str, table: str | None = None) ->
         DELETE FROM {catalog}.information_schema._fs_tables_ext WHERE {where};
         DELETE FROM {catalog}.information_schema._fs_columns_ext WHERE {where}
     """
+
+
+def delete_column_ext_sql(catalog: str, schema: str, table: str, column: str) -> str:
+    """Forget the text length recorded for a dropped column."""
+    return f"""
+        DELETE FROM {catalog}.information_schema._fs_columns_ext
+        WHERE ext_table_catalog = '{catalog}' AND ext_table_schema = '{schema}' AND ext_table_name = '{table}'
+            AND ext_column_name = '{column}'
+    """
+
+
+def rename_column_ext_sql(catalog: str, schema: str, table: str, column: str, to: str) -> str:
+    """Move the text length recorded for a column to its new name."""
+    where = f"ext_table_catalog = '{catalog}' AND ext_table_schema = '{schema}' AND ext_table_name = '{table}'"
+    return f"""
+        DELETE FROM {catalog}.information_schema._fs_columns_ext WHERE {where} AND ext_column_name = '{to}';
+        UPDATE {catalog}.information_schema._fs_columns_ext SET ext_column_name = '{to}'
+        WHERE {where} AND ext_column_name = '{column}'
+    """
+
+
+def rename_table_ext_sql(catalog: str, schema: str, table: str, to: str) -> str:
+    """Move the comment and text lengths recorded for a table to its new name."""
+    where = f"ext_table_catalog = '{catalog}' AND ext_table_schema = '{schema}'"
+    return f"""
+        {delete_table_ext_sql(catalog, schema, to)};
+        UPDATE {catalog}.information_schema._fs_tables_ext SET ext_table_name = '{to}'
+        WHERE {where} AND ext_table_name = '{table}';
+        UPDATE {catalog}.information_schema._fs_columns_ext SET ext_table_name = '{to}'
+        WHERE {where} AND ext_table_name = '{table}'
+    """
